@@ -3,7 +3,7 @@ from .. import lib, runner, regsim
 
 PROP = "C11"
 THEOREMS = ["RegPack.width_is_sum", "RegPack.access_guard", "RegPack.fields_contiguous", "RegPack.flatten_dict_order", "RegPack.flatten_list_order", "RegPack.read_value", "RegPack.read_value_bounded", "RegPack.write_slice", "RegPack.strobes_by_access"]
-IMPORTS = ["SocVerif"]
+IMPORTS = ["SocVerif.Props.C11"]
 
 
 def run(rep, tier):
